@@ -67,6 +67,8 @@ def make_spec(shape, Sset, Rset, Wset, mixin=None, raise_at=None, position='top'
     classes = []
     if mixin is not None:
         classes.append({'name': 'Mx', 'params': [], 'registered': False,
+                        # optionally the unregistered mix-in has the same __name__ as a registered class
+                        'pyname': ('C%d' % mixin[2]) if len(mixin) > 2 else None,
                         'hooks': {'savorize': [('stamp', 's_Mx')], 'sweeten': [('stamp', 'w_Mx')],
                                   'recognize': [('permissive',)]}})
     for i, p in enumerate(parents):
@@ -106,7 +108,10 @@ def units(tier):
         for i in range(n):
             for place in ('before', 'after'):
                 out.append(('mixin', shape, i, place))
+            out.append(('mixin', shape, i, 'after', i))            # mix-in named like the class it is mixed into
+            out.append(('mixin', shape, i, 'before', (i + 1) % n))  # ... or like another registered class
         out.append(('raise', shape))
+        out.append(('incremental', shape))
     out.append(('scalar-classes',))
     return out
 
@@ -324,6 +329,68 @@ def dump_space(res, shape, Wsets, mixin=None, fam='dump'):
                         res.sample({'shape': shape, 'sweeten_on': sorted(Wset), 'value': show(v), 'text': text}, 1)
 
 
+def incremental_space(res, shape, Wsets):
+    """the deprecated Dumper route with classes registered in two steps (first everything but the root class, then
+    the root), and a dumper derived from that one: the hooks that run must follow the set registered AT THAT TIME"""
+    import yatiml.dumper as yd
+    parents = SHAPES[shape]
+    n = len(parents)
+    if n < 2:
+        return
+    for Wset in Wsets:
+        spec = make_spec(shape, frozenset(), frozenset(), Wset, position='top')
+        b = models.build(spec)
+
+        class MyDumper(yd.Dumper):
+            pass
+        yd.add_to_dumper(MyDumper, [b.classes['C%d' % i] for i in range(1, n)])
+        steps = [('without-root', MyDumper, set(range(1, n)))]
+        res.states += 1
+        for phase in range(3):
+            if phase == 1:
+                yd.add_to_dumper(MyDumper, [b.classes['C0']])
+                steps = [('root-added', MyDumper, set(range(n)))]
+            elif phase == 2:
+                class Derived(MyDumper):
+                    pass
+                steps = [('derived-dumper', Derived, set(range(n)))]
+            for label, D, reg in steps:
+                for i in range(1, n):
+                    v = b.classes['C%d' % i](**{q: 1 for q in required_params(parents, i)})
+                    res.states += 1
+                    res.transitions += 1
+                    res.traces += 1
+                    del LOG[:]
+                    pl = {'spec': spec, 'model': models.source_of(spec), 'shape': shape, 'cls': i, 'W': sorted(Wset),
+                          'side': 'incremental', 'text': ''}
+                    try:
+                        text = yaml.dump(v, Dumper=D)
+                    except Exception as e:     # noqa
+                        res.violation('C10:dump-failed:incremental', 'dump (%s) of %s raised %s: %s' % (label, show(v), type(e).__name__, e), pl)
+                        continue
+                    # registered ancestors reachable through registered direct bases only
+                    lin = []
+                    j = i
+                    chain = []
+                    while j is not None and j in reg:
+                        chain.append(j)
+                        j = parents[j]
+                    for j in reversed(chain):
+                        if j in Wset:
+                            lin.append(j)
+                    exp = {'w_C%d' % j: k + 1 for k, j in enumerate(lin)}
+                    data = yaml.safe_load(text)
+                    got = {k: x for k, x in data.items() if k.startswith('w_')} if isinstance(data, dict) else None
+                    if lin:
+                        res.nontrivial += 1
+                    if got != exp:
+                        res.violation('C10:sweeten-incremental:%s' % label,
+                                      '%s: dump of %s carries sweeten stamps %s, the rule for the classes registered at that time (%s) gives %s' % (
+                                          label, show(v), got, sorted(reg), exp), pl)
+                    else:
+                        res.hist['dump-ok:incremental'] += 1
+
+
 # ---------------------------------------------------------------- enum and string-like classes (log based)
 
 def scalar_space(res):
@@ -402,12 +469,14 @@ def run_unit(unit, tier):
     elif kind == 'dump':
         dump_space(res, shape, allsub)
     elif kind == 'mixin':
-        mixin = (unit[2], unit[3])
+        mixin = tuple(unit[2:])
         few = [frozenset(), frozenset(range(n)), frozenset([unit[2]]), frozenset([0])]
         Ssets = allsub if tier == 'thorough' else list(dict.fromkeys(few))
         Rsets = list(dict.fromkeys(few)) if tier == 'thorough' else [frozenset(), frozenset(range(n))]
         load_space(res, shape, Ssets, Rsets, mixin=mixin, fam='mixin')
         dump_space(res, shape, Ssets, mixin=mixin, fam='mixin')
+    elif kind == 'incremental':
+        incremental_space(res, shape, allsub)
     elif kind == 'raise':
         Ssets = [frozenset(), frozenset(range(n))]
         load_space(res, shape, Ssets, [frozenset(), frozenset(range(n))], raise_ats=list(range(n)), fam='raise')
@@ -440,6 +509,8 @@ def replay(payload):
                 mixin = (int(c['name'][1:]), 'before' if c['bases'][0] == 'Mx' else 'after')
         # re-run the whole (small) sweeten-subset space of this shape for the recorded subset only
         dump_space(res, shape, [frozenset(payload['W'])], mixin=mixin, fam='replay')
+    elif side == 'incremental':
+        incremental_space(res, shape, [frozenset(payload['W'])])
     else:
         scalar_space(res)
     if res.violations:
